@@ -399,7 +399,7 @@ pub fn run(pr: &mut PropRun, t: &Tier) {
         "integrate::{integrate_gaussian,integrate_gaussian_core,integrate_hermite,integrate_laguerre,integrate_chebyshev,integrate_chebyshev_second} as consumers of integrate::tables::WEIGHTS_*",
         "integrate::{integrate,integrate_core} as consumer of WEIGHTS_DE",
     ]);
-    pr.bound("every row of the five Gaussian tables in the thorough tier (12+27+12+100+100); quick tier: all Legendre/Laguerre/Hermite rows and Chebyshev rows 1..24 plus every 8th row; per row all 2n polynomial coefficients symbolic (normalised by the absolute moments)");
+    pr.bound("every row of the five Gaussian tables (12+27+12+100+100) for exactness, node count, distinctness and domain; weight positivity for every row in the thorough tier and for all Legendre/Laguerre/Hermite rows plus Chebyshev rows 1..24 and every 8th row in the quick tier; per row all 2n polynomial coefficients symbolic (normalised by the absolute moments)");
     pr.bound("tanh-sinh: all 7 levels (levels 0..2 jointly with an unbounded tolerance; levels 2..6 one by one, steering the stopping rule with a centre-only integrand)");
     pr.outside("rounding of symbolic operations");
     pr.assume("reference moments are closed forms evaluated in f64 (relative error ~1e-15); the integrand is stateful (FnMut) and assumes row j consumes j+1 evaluations, which is itself an obligation");
@@ -409,13 +409,14 @@ pub fn run(pr: &mut PropRun, t: &Tier) {
         crate::job!(jobs, cfg, row_zero, fam);
         for r in 1..fam.rows() {
             let dense = matches!(fam, Fam::Legendre | Fam::Laguerre | Fam::Hermite);
-            if !t.thorough && !dense && r > 24 && r % 8 != 3 {
-                continue;
-            }
             let mut cfg = t.cfg(&format!("C10:{}(row={},exactness)", fam.name(), r));
             cfg.query_timeout_s = if t.thorough { 300.0 } else { 60.0 };
             cfg.validate_paths = 1;
             crate::job!(jobs, cfg, row_exactness, fam, r);
+            // (positivity of the long Chebyshev rows only sampled in the quick tier)
+            if !t.thorough && !dense && r > 24 && r % 8 != 3 {
+                continue;
+            }
             let mut cfg = t.cfg(&format!("C10:{}(row={},positive-weights)", fam.name(), r));
             cfg.validate_paths = 1;
             crate::job!(jobs, cfg, row_positive, fam, r);
